@@ -165,6 +165,12 @@ impl Searcher {
         state_history.increment(game_state_hash);
 
         for depth in 0..max_depth {
+            // The workers only look at the token every so many nodes of an iteration, which
+            // small iterations never reach, so look at it here as well
+            if depth > 0 && token.is_cancelled() {
+                break;
+            }
+
             // Don't bother doing multiple threads if we're only searching a few moves
             // as the OS overhead will likely outweigh the benefits of parallelism
             let thread_count = max_thread_count.unwrap_or_else(|| {
